@@ -76,7 +76,8 @@ type Response struct {
 	ID, InResponseTo, Destination, Version, IssueInstant *string
 	Issuer                                               *string
 	HasStatus                                            bool
-	StatusCodes                                          []string // nested chain, outermost first
+	StatusCodes                                          []string   // nested chain, outermost first
+	ExtraStatus                                          [][]string // further Status elements after the first (encoding/xml merges them: the last StatusCode wins)
 	Assertions                                           []*Assertion
 	Sig                                                  *SigSpec
 }
@@ -238,6 +239,9 @@ func (r *Response) Node() (*Node, []*Node) {
 	if r.HasStatus {
 		n.Add(statusNode(r.StatusCodes))
 	}
+	for _, es := range r.ExtraStatus {
+		n.Add(statusNode(es))
+	}
 	var as []*Node
 	for _, a := range r.Assertions {
 		an := a.Node()
@@ -279,7 +283,7 @@ func (d *dump) s(path string, v *string) {
 	if v == nil {
 		d.lines = append(d.lines, path+"=<absent>")
 	} else {
-		d.lines = append(d.lines, fmt.Sprintf("%s=%q", path, *v))
+		d.lines = append(d.lines, fmt.Sprintf("%s=%q", path, StripMarks(*v)))
 	}
 }
 func (d *dump) str(path, v string) { d.lines = append(d.lines, fmt.Sprintf("%s=%q", path, v)) }
@@ -478,14 +482,31 @@ func DumpRoot(r *Response) string {
 		d.lines = append(d.lines, fmt.Sprintf("IssueInstant=@%d", time.Time{}.UnixNano()))
 	}
 	d.s("Issuer", r.Issuer)
-	if !r.HasStatus {
+	has, code := r.EffectiveStatus()
+	if !has {
 		d.lines = append(d.lines, "Status=<absent>")
-	} else if len(r.StatusCodes) == 0 {
+	} else if code == nil {
 		d.lines = append(d.lines, "Status.Code=<absent>")
 	} else {
-		d.str("Status.Code", r.StatusCodes[0])
+		d.str("Status.Code", *code)
 	}
 	return strings.Join(d.lines, "\n")
+}
+
+// EffectiveStatus is what a reader that merges repeated Status elements sees:
+// whether any Status is present and the last top-level StatusCode value.
+func (r *Response) EffectiveStatus() (bool, *string) {
+	has := r.HasStatus || len(r.ExtraStatus) > 0
+	var code *string
+	if r.HasStatus && len(r.StatusCodes) > 0 {
+		code = &r.StatusCodes[0]
+	}
+	for _, es := range r.ExtraStatus {
+		if len(es) > 0 {
+			code = &es[0]
+		}
+	}
+	return has, code
 }
 
 // DumpLibRoot is the library-side twin of DumpRoot.
